@@ -15,6 +15,7 @@ EXPLANATION = (
     "retryable errno family; the library's own errors are not OSErrors; SocketConnection.recv/send delegate exactly."
     'Also decided: every ConnectionClosedError of receive_data carries partialData; the buffer is created once; a short MSG_WAITALL read is handed over to the manual loop and not repeated; no fall-through; sendall is not retried; errno is read without indexing args; only ConnectionClosedError handlers read partialData. '
     'Also decided (round 7): The read that passes recv flags is guarded by a test of the socket it reads from. '
+    'Also decided (round 8): The retry table (also when computed from errno names) contains all four transient errnos. '
     "Not decided: exact bytes/order under scripts of partial reads, timing, MSG_WAITALL semantics."
 )
 
@@ -28,7 +29,7 @@ def run(ctx, R, tier):
     R.rule("C17-R2", "error classification: socket.timeout -> TimeoutError; socket.error -> ConnectionClosedError unless errno in ERRNO_RETRIES (then retry); short read stores partialData; the library's own errors are not OSErrors", floor=10)
     R.rule("C17-R3", "accumulate/advance pairing in the receive loop; slice-after-send by the returned count in the send loop", floor=4)
     R.rule("C17-R5", "SocketConnection.recv/send delegate exactly to receive_data/send_data", floor=2)
-    R.rule("C17-R4", "ERRNO_RETRIES contains only retryable errno constants", floor=1)
+    R.rule("C17-R4", "ERRNO_RETRIES contains only retryable errno constants, and all four transient ones", floor=2)
 
     rx = ctx.fn("Pyro5.socketutil.receive_data")
     tx = ctx.fn("Pyro5.socketutil.send_data")
@@ -276,17 +277,38 @@ def run(ctx, R, tier):
     m = p.module("Pyro5.socketutil")
     names = set()
     v = m.constants.get("ERRNO_RETRIES")
-    if not isinstance(v, (ast.List, ast.Tuple, ast.Set)):
+    computed = False
+    if isinstance(v, (ast.List, ast.Tuple, ast.Set)):
+        for e in v.elts:
+            names.add(unparse(e))
+    elif isinstance(v, (ast.ListComp, ast.SetComp, ast.GeneratorExp)) or (isinstance(v, ast.Call) and v.args and isinstance(v.args[0], (ast.ListComp, ast.GeneratorExp))):
+        # the table computed from a tuple of errno NAMES: [getattr(errno, n) for n in NAMES if hasattr(errno, n)] - the names are read from the (constant) iterable;
+        # adjacent string literals without a comma are one name, which the hasattr filter then silently drops
+        comp = v if not isinstance(v, ast.Call) else v.args[0]
+        it = comp.generators[0].iter if len(comp.generators) == 1 else None
+        if isinstance(it, ast.Name):
+            it = m.constants.get(it.id)
+        elt_ok = isinstance(comp.elt, ast.Call) and unparse(comp.elt.func) == "getattr" and len(comp.elt.args) == 2 and unparse(comp.elt.args[0]) == "errno" \
+            and isinstance(comp.elt.args[1], ast.Name) and isinstance(comp.generators[0].target, ast.Name) and comp.elt.args[1].id == comp.generators[0].target.id
+        if not (isinstance(it, (ast.Tuple, ast.List, ast.Set)) and all(isinstance(e, ast.Constant) and isinstance(e.value, str) for e in it.elts) and elt_ok):
+            raise AnalysisError("socketutil.ERRNO_RETRIES is neither a literal list nor a comprehension over a constant tuple of errno names")
+        computed = True
+        import errno as _errno
+        for e in it.elts:
+            names.add("errno." + e.value)
+    else:
         raise AnalysisError("socketutil.ERRNO_RETRIES is not a literal list")
-    for e in v.elts:
-        names.add(unparse(e))
     for n in ast.walk(m.tree):
         if isinstance(n, ast.Call) and isinstance(n.func, ast.Attribute) and n.func.attr in ("append", "extend", "add") and unparse(n.func.value) == "ERRNO_RETRIES":
             for a in n.args:
                 names.add(unparse(a))
     bad = sorted(x for x in names if not (x.startswith("errno.") and x[6:] in RETRYABLE))
     R.check(not bad and len(names) >= 3, "C17-R4", "ERRNO_RETRIES|retryable-family", "only EINTR/EAGAIN/EWOULDBLOCK/EINPROGRESS (and their WSA twins) are retried", m.relpath,
-            "non-retryable errno values are retried forever: %s" % bad)
+            ("names that are not retryable errno constants are in the table: %s%s" % (bad, " (an entry that is no errno name at all - e.g. two string literals joined by a missing comma - is "
+             "dropped by the hasattr() filter: the errnos it was meant to name are treated as fatal)" if computed else "")))
+    missing = sorted({"errno.EINTR", "errno.EAGAIN", "errno.EWOULDBLOCK", "errno.EINPROGRESS"} - names)
+    R.check(not missing, "C17-R4", "ERRNO_RETRIES|transient-errnos-present", "EINTR, EAGAIN, EWOULDBLOCK and EINPROGRESS are all in the table", m.relpath,
+            "%s no longer in ERRNO_RETRIES: a transient would-block / interrupted condition raises ConnectionClosedError instead of being retried, and the bytes read so far are lost" % missing)
 
     # only the connection-closed error carries partialData: a handler that reads it must not catch anything wider
     n_pd = 0
